@@ -176,10 +176,12 @@ def gen_pairs(rng, per_op):
     A2R10 = (32 << 24) | (2 << 16) | (2 << 12) | (10 << 8) | (10 << 4) | 10
     for op in (1, 3, 12, 5, 8, 0, 11, 4, 13, 0x13, 0x30):   # SRC OVER ADD IN OUT_REVERSE CLEAR XOR OVER_REVERSE SATURATE DISJOINT_OVER MULTIPLY
         for dfmt in (A, X, R565, A2R10):
-            for (k1, k2) in ((1, 6), (5, 7), (5, 7), (5, 7)):
+            for j, (k1, k2) in enumerate(((1, 6), (5, 7), (5, 7), (5, 7))):
                 dw, dh = rng.randint(3, 9), 2
                 w, h = dw - rng.randint(0, 1), dh
                 seed = rng.randrange(1, 2 ** 31)
+                if j:       # the driver takes the almost-opaque alpha from seed % 6: 0xfffe, 0xff00 and 0x8000 for EVERY cell
+                    seed = seed - seed % 6 + 6 + (0, 2, 4)[j - 1]
                 for vi, sk in enumerate((k1, k2)):
                     lines.append(preq(pair, vi, 0, op, sk, A, 1, 1, 0, 3, [FX1, 0, 0, FX1, 0, 0], 0, dfmt, dw, dh,
                                       0, 0, dw - w, 0, w, h, seed, 0))
